@@ -458,11 +458,53 @@ func init() {
 			r := args[0].(iface)
 			h, ok := r.v.(*value)
 			if !ok || h == nil {
-				panic(unsupported{"io.ReadAll of an unmodelled reader"})
+				return useBody{}
+			}
+			if _, isFile := (*h).(fileHandle); !isFile {
+				return useBody{} // any other reader: the real io.ReadAll
 			}
 			return readAll(x, h)
 		})
 	}
+	// (*os.File).Read: the next min(len(b), remaining) bytes; (0, io.EOF) at the end (bufio over a file runs as real code)
+	reg("(*os.File).Read", func(x *Exec, fr *frame, args []value) value {
+		h, _ := args[0].(*value)
+		if h == nil {
+			panic(unsupported{"Read on a nil *os.File"})
+		}
+		fh, ok := (*h).(fileHandle)
+		if !ok || fh.closed {
+			panic(unsupported{"Read of an unmodelled or closed file"})
+		}
+		dst := args[1].(sliceVal)
+		bs := x.bytesOf(x.fileData[fh.path].data)
+		if len(dst.a) == 0 {
+			return tuple{x.tb.Const(64, 0), iface{}}
+		}
+		if fh.pos >= len(bs) {
+			var eof value = iface{}
+			if iop := x.P.prog.ImportedPackage("io"); iop != nil {
+				if g, ok := iop.Members["EOF"].(*ssa.Global); ok {
+					eof = *x.globals[g]
+				}
+			}
+			if ei, ok := eof.(iface); !ok || ei.t == nil {
+				panic(unsupported{"io.EOF is not initialised"})
+			}
+			return tuple{x.tb.Const(64, 0), eof}
+		}
+		n := len(bs) - fh.pos
+		if n > len(dst.a) {
+			n = len(dst.a)
+		}
+		for i := 0; i < n; i++ {
+			x.noteWrite(&dst.a[i])
+			dst.a[i] = bs[fh.pos+i]
+		}
+		fh.pos += n
+		*h = fh
+		return tuple{x.tb.Const(64, uint64(n)), iface{}}
+	})
 	reg("(*os.File).Close", func(x *Exec, fr *frame, args []value) value {
 		h, _ := args[0].(*value)
 		if h == nil {
